@@ -348,7 +348,61 @@ def suite_formulas(tier):
     return s
 
 
+def long_tables(report, tier):
+    """grid (labelled, not a solver verdict): lookups on sorted key columns of 16-18 rows with runs of equal keys - longer than anything the symbolic
+    harnesses hold.  Keys = running sums of 0/1 steps (every step pattern with at most `maxones` ones), every lookup value from below the first to
+    above the last key.  VLOOKUP approximate / exact, MATCH 1 / 0, XMATCH 0 from both ends against an independent scan."""
+    import itertools
+    import time
+    from vlib import build
+    t0 = time.time()
+    RT = build.load_class(build.runtime_source(), '_rt_c14long', narrow=False)()
+    bad = None
+    n_cases = 0
+    for n in (16, 17, 18):
+        for ones in range(0, 4 if tier == 'quick' else 5):
+            for pos in itertools.combinations(range(1, n), ones):
+                keys, k = [], 3
+                for i in range(n):
+                    if i in pos:
+                        k += 1
+                    keys.append(k)
+                table = [[key, 100 + i] for i, key in enumerate(keys)]
+                col = [[key] for key in keys]
+                for v in range(2, keys[-1] + 2):
+                    le = [i for i, key in enumerate(keys) if key <= v]
+                    eq = [i for i, key in enumerate(keys) if key == v]
+                    checks = (
+                        ('_vlookup approximate', lambda: RT._vlookup(v, table, 2, True), 100 + le[-1] if le else '#N/A'),
+                        ('_vlookup exact', lambda: RT._vlookup(v, table, 2, False), 100 + eq[0] if eq else '#N/A'),
+                        ('_match exact', lambda: RT._match(v, col, 0), eq[0] + 1 if eq else '#N/A'),
+                        ('_match approximate', lambda: RT._match(v, col, 1), le[-1] + 1 if le else '#N/A'),
+                        ('_xmatch first', lambda: RT._xmatch(v, col, 0, 1), eq[0] + 1 if eq else '#N/A'),
+                        ('_xmatch last', lambda: RT._xmatch(v, col, 0, -1), eq[-1] + 1 if eq else '#N/A'),
+                    )
+                    for name, fn, exp in checks:
+                        n_cases += 1
+                        try:
+                            got = fn()
+                        except Exception as e:
+                            got = f'{type(e).__name__}: {e}'
+                        if got != exp and bad is None:
+                            bad = f'{name} of {v} in keys {keys} = {got!r}, expected {exp!r}'
+                if bad:
+                    break
+            if bad:
+                break
+        if bad:
+            break
+    if bad:
+        report.condition('helpers.long_sorted_tables', 'grid', 'violated', time.time() - t0, n_cases, bad)
+        report.violation('helpers.long_sorted_tables', bad.split(' = ')[0], bad)
+    else:
+        report.condition('helpers.long_sorted_tables', 'grid', 'holds', time.time() - t0, n_cases, 'sorted key columns of 16-18 rows with duplicate runs: every lookup agrees with an independent scan (enumeration, not a solver verdict)')
+
+
 def run(report, tier, seed):
+    long_tables(report, tier)
     report.bound(f'key columns: List[int] len<={4 if tier == "quick" else 5}, List[str] len<=3 of ASCII strings len<=2; ints unbounded')
     report.bound('formula level: 4-row key/value columns A1:B4 (every cell a symbolic int override), INDEX over 3x3 / 1x3 / 4x1 / two 2x2 areas')
     report.bound('ADDRESS: 1<=col<=16384, 1<=row<=1048576')
